@@ -131,7 +131,6 @@ AuxHashMap<A>* AuxHashMap<A>::deserialize(std::istream& is, uint8_t lgConfigK,
   }
 
   if (auxHashMap->getAuxCount() != auxCount) {
-    make_deleter()(auxHashMap);
     throw std::invalid_argument("Deserialized AuxHashMap has wrong number of entries");
   }
 
